@@ -69,6 +69,9 @@ type Prop struct {
 	// Agree decides whether the twin's answer covers the real one (nil = equality).  Used where the
 	// twin answers with a set of outcomes (DESIGN.md section 2: membership instead of equality).
 	Agree func(line, real, twin string) bool
+	// OutcomeTags adds tags derived from the real answers of a case to the printed distribution
+	// (which branches / error kinds were actually hit); may be nil.
+	OutcomeTags func(c Case, realOut []string) []string
 }
 
 // Failure is one reported problem.
@@ -392,6 +395,11 @@ func Run(p *Prop, opts Opts) (*Result, error) {
 		for _, t := range oc.c.Tags {
 			res.Distribution[t]++
 		}
+		if p.OutcomeTags != nil {
+			for _, t := range p.OutcomeTags(oc.c, oc.real) {
+				res.Distribution[t]++
+			}
+		}
 		if len(res.Samples) < 6 && (oc.c.Nontrivial || len(res.Samples) < 2) {
 			res.Samples = append(res.Samples, oc.c)
 		}
@@ -433,8 +441,14 @@ func Run(p *Prop, opts Opts) (*Result, error) {
 		if oc.disLine >= 0 && len(res.Violations) < 5 {
 			min := shrink(p, oc.c, func(c Case) bool { return runCase(p, so, c).disLine >= 0 })
 			o2 := runCase(p, so, min)
+			note := ""
+			if o2.disLine < 0 {
+				// the disagreement did not show again on the re-run: report what was seen the first time
+				o2, min = oc, oc.c
+				note = " (not reproduced on re-run)"
+			}
 			f := Failure{Kind: "correspondence", Case: min, RealOut: o2.real, TwinOut: o2.twin, NoInput: true,
-				Msg: fmt.Sprintf("twin and implementation differ at line %d: real=%q twin=%q", o2.disLine, at(o2.real, o2.disLine), at(o2.twin, o2.disLine))}
+				Msg: fmt.Sprintf("twin and implementation differ at line %d: real=%q twin=%q%s", o2.disLine, at(o2.real, o2.disLine), at(o2.twin, o2.disLine), note)}
 			// does the property's own monitor fail on the disagreeing case or its minimised form?
 			for _, cand := range []outcome{oc, o2} {
 				for _, m := range cand.mon {
